@@ -263,7 +263,26 @@ def classify_autocorrelation(ctx, tag, r_ext, p):
 # --------------------------------------------------------------------------
 # case generation
 # --------------------------------------------------------------------------
+SCALES = [Fraction(1, 2 ** 20), Fraction(1, 2 ** 34), Fraction(1, 10 ** 6),
+          Fraction(1, 10 ** 8), Fraction(2 ** 12), Fraction(10 ** 6),
+          Fraction(3, 10 ** 5)]
+
+
 def rand_block(rng, n, kind):
+  """A block, sometimes rescaled: every quantity of the statement is either
+  scale invariant (the coefficients) or homogeneous (the error), so quiet and
+  loud blocks must be solved as well as ordinary ones."""
+  blk = rand_block_unscaled(rng, n, kind)
+  if rng.random() < 0.25:
+    s = rng.choice(SCALES)
+    if kind == "float":
+      s = rng.choice([2.0 ** -20, 2.0 ** -34, 2.0 ** 12, 2.0 ** -27])
+      return [v * s for v in blk]
+    return [Fraction(v) * s for v in blk]
+  return blk
+
+
+def rand_block_unscaled(rng, n, kind):
   if kind == "frac":
     return [Fraction(rng.randint(-9, 9), rng.randint(1, 6)) for _ in range(n)]
   if kind == "int":
